@@ -6,7 +6,10 @@ package core
 // the path manager's authManager field (an interface) is wrapped with a recorder that logs
 // every Authenticate request and its outcome. Every scenario of the case file is played by a
 // real client (gortsplib, gortmplib, net/http) on its own fresh path name; configuration
-// reloads are made through the Core's own API methods between authorization and attachment;
+// reloads (another entry / a non-hot-reloadable field / only a hot-reloadable field of the same
+// entry / the name re-homed to a new exact entry) are made through the Core's own API methods
+// between authorization and attachment, and what they did to the configuration in force is
+// asked from the path manager itself; one route calls the path manager directly;
 // attachment is read from the path manager's API. The test records; TLC decides
 // (spec/auth/TraceAuthFlow.tla).
 
@@ -36,6 +39,8 @@ import (
 
 	"github.com/bluenviron/mediamtx/internal/auth"
 	"github.com/bluenviron/mediamtx/internal/conf"
+	"github.com/bluenviron/mediamtx/internal/defs"
+	"github.com/bluenviron/mediamtx/internal/logger"
 	"github.com/bluenviron/mediamtx/internal/test"
 	"github.com/bluenviron/mediamtx/internal/verifrt"
 )
@@ -65,6 +70,7 @@ type vf03Event struct {
 	Proto   string `json:"proto"`
 	OK      bool   `json:"ok"`
 	Changes bool   `json:"changes"`
+	Prep    bool   `json:"prep"` // a reload made before the client's first request (gives the path its own entry)
 }
 
 // the recorder around the path manager's authManager
@@ -76,6 +82,9 @@ type vf03Recorder struct {
 
 func (r *vf03Recorder) Authenticate(req *auth.Request) (string, *auth.Error) {
 	user, err := r.inner.Authenticate(req)
+	if req.Query == vf03ProbeQuery {
+		return user, err // the harness asking which configuration is in force: not a client
+	}
 	e := vf03Event{Op: "auth", Action: string(req.Action), Path: req.Path, Proto: string(req.Protocol), OK: err == nil}
 	if req.Credentials != nil {
 		e.User, e.Pass = req.Credentials.User, req.Credentials.Pass
@@ -204,22 +213,90 @@ func vf03StartCore(t testing.TB, users []vf03User) *vf03Env {
 	}
 }
 
-// reload changes the configuration through the Core's API methods and waits until the Core's
-// loop has applied it (a second request through the same loop is the barrier).
-func (e *vf03Env) reload(s *vf03Scen) {
-	target := s.Name
-	if s.Reload == "other" {
-		target = "vfother" + s.Name
+const vf03ProbeQuery = "vfprobe=1"
+
+// inForce asks the real path manager (through its request channel) which configuration it
+// resolves the name to, and renders it field by field (JSON of the entry, plus whether it is a
+// regular-expression entry). The request is made with credentials that are always admitted and
+// a query string the recorder recognizes, so that it is not taken for a client's request.
+func (e *vf03Env) inForce(name string) string {
+	res, err := e.p.pathManager.FindPathConf(defs.PathFindPathConfReq{
+		Author: &vf03Direct{},
+		AccessRequest: defs.PathAccessRequest{
+			Name: name, Query: vf03ProbeQuery, Publish: true, Proto: auth.ProtocolRTSP,
+			Credentials: &auth.Credentials{User: "alice", Pass: "pw"}, IP: net.ParseIP("127.0.0.1"),
+		},
+	})
+	if err != nil {
+		e.t.Fatalf("vf03: cannot ask for the configuration in force of %s: %v", name, err)
 	}
-	var op conf.OptionalPath
-	if err := json.Unmarshal([]byte(`{"maxReaders": 7}`), &op); err != nil {
+	b, err := json.Marshal(res.Conf)
+	if err != nil {
 		e.t.Fatal(err)
 	}
-	if err := e.p.APIConfigPathsAdd(target, op); err != nil {
-		e.t.Fatalf("vf03: reload: %v", err)
+	re := ""
+	if res.Conf.Regexp != nil {
+		re = res.Conf.Regexp.String()
 	}
+	return string(b) + " regexp=" + re
+}
+
+func (e *vf03Env) apply(s *vf03Scen, prep bool, do func() error) {
+	before := e.inForce(s.Name)
+	if err := do(); err != nil {
+		e.t.Fatalf("vf03: scenario %d: reload: %v", s.ID, err)
+	}
+	// a second request through the Core's loop returns after the first one was applied
 	e.p.APIConfigPathsDelete("vfbarrier-nonexistent") //nolint:errcheck
-	e.rec.note(vf03Event{Op: "reload", Path: s.Name, Changes: s.Reload == "change"})
+	after := e.inForce(s.Name)
+	e.rec.note(vf03Event{Op: "reload", Path: s.Name, Changes: before != after, Prep: prep})
+}
+
+func vf03Optional(t testing.TB, js string) conf.OptionalPath {
+	var op conf.OptionalPath
+	if err := json.Unmarshal([]byte(js), &op); err != nil {
+		t.Fatal(err)
+	}
+	return op
+}
+
+// prepare gives the path its own configuration entry when the scenario is going to change a
+// field of "the same entry" (the shared all_others entry must stay as it is for the others).
+func (e *vf03Env) prepare(s *vf03Scen) {
+	if s.Reload == "nonhot" || s.Reload == "hot" {
+		e.apply(s, true, func() error { return e.p.APIConfigPathsAdd(s.Name, vf03Optional(e.t, `{}`)) })
+	}
+}
+
+// reload changes the configuration through the Core's own API methods between authorization and
+// attachment:
+//
+//	other   an entry for another name is added (the configuration in force for this name stays)
+//	nonhot  a field of this path's entry that cannot be hot-reloaded changes (maxReaders)
+//	hot     ONLY a hot-reloadable field of this path's entry changes (recordDeleteAfter)
+//	rehome  an exact entry for this name is added, identical to all_others except for its name
+func (e *vf03Env) reload(s *vf03Scen) {
+	switch s.Reload {
+	case "other":
+		e.apply(s, false, func() error { return e.p.APIConfigPathsAdd("vfother"+s.Name, vf03Optional(e.t, `{"maxReaders": 7}`)) })
+	case "nonhot":
+		e.apply(s, false, func() error { return e.p.APIConfigPathsPatch(s.Name, vf03Optional(e.t, `{"maxReaders": 7}`)) })
+	case "hot":
+		e.apply(s, false, func() error { return e.p.APIConfigPathsPatch(s.Name, vf03Optional(e.t, `{"recordDeleteAfter": "1h"}`)) })
+	case "rehome":
+		e.apply(s, false, func() error { return e.p.APIConfigPathsAdd(s.Name, vf03Optional(e.t, `{}`)) })
+	default:
+		e.t.Fatalf("vf03: unknown reload kind %q", s.Reload)
+	}
+}
+
+// a publisher that talks to the path manager directly
+type vf03Direct struct{}
+
+func (*vf03Direct) Close()                           {}
+func (*vf03Direct) Log(logger.Level, string, ...any) {}
+func (*vf03Direct) APISourceDescribe() *defs.APIPathSource {
+	return &defs.APIPathSource{Type: "vf03Direct", ID: ""}
 }
 
 func (e *vf03Env) attached(s *vf03Scen, wait time.Duration) bool {
@@ -228,7 +305,7 @@ func (e *vf03Env) attached(s *vf03Scen, wait time.Duration) bool {
 		data, err := e.p.pathManager.APIPathsGet(s.Name)
 		if err == nil {
 			if s.Action == "publish" {
-				want := map[string]string{"rtsp": "rtspSession", "rtmp": "rtmpConn", "srt": "srtConn"}[s.Proto]
+				want := map[string]string{"rtsp": "rtspSession", "rtmp": "rtmpConn", "srt": "srtConn", "pm": "vf03Direct"}[s.Proto]
 				if data.Source != nil && string(data.Source.Type) == want {
 					return true
 				}
@@ -272,7 +349,37 @@ func (e *vf03Env) feed(s *vf03Scen) func() {
 }
 
 func (e *vf03Env) play(s *vf03Scen) (note string) {
+	e.prepare(s)
 	switch s.Proto + "/" + s.Action {
+	case "pm/publish":
+		// the calls a protocol handler makes, made directly: FindPathConf (authentication), then
+		// AddPublisher with skipAuth and the configuration FindPathConf returned
+		res1, err := e.p.pathManager.FindPathConf(defs.PathFindPathConfReq{
+			Author: &vf03Direct{},
+			AccessRequest: defs.PathAccessRequest{
+				Name: s.Name, Publish: true, Proto: auth.ProtocolRTSP,
+				Credentials: &auth.Credentials{User: s.User, Pass: s.Pass}, IP: net.ParseIP(s.IP),
+			},
+		})
+		if s.Reload != "none" {
+			e.reload(s)
+		}
+		if err != nil {
+			return "findpathconf: " + err.Error() + fmt.Sprintf(" attached=%v", e.attachedNow(s, false))
+		}
+		author := &vf03Direct{}
+		res2, err := e.p.pathManager.AddPublisher(defs.PathAddPublisherReq{
+			Author:        author,
+			Desc:          &description.Session{},
+			ConfToCompare: res1.Conf,
+			AccessRequest: defs.PathAccessRequest{Name: s.Name, Publish: true, SkipAuth: true},
+		})
+		if err != nil {
+			return "addpublisher: " + err.Error() + fmt.Sprintf(" attached=%v", e.attachedNow(s, false))
+		}
+		defer res2.Path.RemovePublisher(defs.PathRemovePublisherReq{Author: author})
+		return fmt.Sprintf("attached=%v", e.attachedNow(s, true))
+
 	case "rtsp/publish":
 		c := e.rtspClient()
 		u, err := base.ParseURL("rtsp://" + vf03UserInfo(s) + e.rtsp + "/" + s.Name)
